@@ -15,7 +15,7 @@ pub fn case_timeout() -> Duration {
     let s = std::env::var("VERIF_CASE_TIMEOUT")
         .ok()
         .and_then(|v| v.parse::<u64>().ok())
-        .unwrap_or(20);
+        .unwrap_or(60);
     Duration::from_secs(s.max(1))
 }
 
